@@ -44,6 +44,13 @@ func (fr *frame) baseEnv() *SpecEnv {
 			continue
 		}
 		if dv.addr {
+			if dv.val.L != nil && dv.val.L.Private != "" && len(dv.val.L.Path) == 0 {
+				if env.locals == nil {
+					env.locals = map[string]*Loc{}
+				}
+				env.locals[name] = dv.val.L
+				continue
+			}
 			if dv.val.S != "" && dv.val.L == nil {
 				if env.locals == nil {
 					env.locals = map[string]*Loc{}
@@ -60,6 +67,15 @@ func (fr *frame) baseEnv() *SpecEnv {
 	}
 	// named locals / named results that live in cells
 	for v, val := range fr.vals {
+		if a, ok := v.(*ssa.Alloc); ok && a.Comment != "" && val.L != nil && val.L.Private != "" && len(val.L.Path) == 0 {
+			if env.locals == nil {
+				env.locals = map[string]*Loc{}
+			}
+			if _, dup := env.vars[a.Comment]; !dup {
+				env.locals[a.Comment] = val.L
+			}
+			continue
+		}
 		if a, ok := v.(*ssa.Alloc); ok && a.Comment != "" && val.S != "" && val.L == nil {
 			if env.locals == nil {
 				env.locals = map[string]*Loc{}
@@ -368,7 +384,7 @@ func (fr *frame) frameObligations(con *Contract, penv *SpecEnv, gRet string, mem
 	}
 	brk0 := vc.get(fr.entry, "brk")
 	for _, c := range sortedKeys(vc.compSort) {
-		if immutableComp(c) || strings.HasPrefix(c, "G:iter:") {
+		if immutableComp(c) || strings.HasPrefix(c, "G:iter:") || strings.HasPrefix(c, "L:") {
 			continue
 		}
 		n, o := vc.get(memRet, c), vc.get(fr.entry, c)
